@@ -21,6 +21,7 @@ RULE = (
     'seed; non-trivial iff the structured result differs from a diagonal/identity matrix (always for n>=2)'
     '; pass 5: index-kernel diagonals with one / two index vectors (diag=True, lazy diagonal, Hadamard product); structured strategies under fixed and fixed+learned observation noise'
     '; pass 6: batched KISS-GP / SGPR / RFF models; Nystrom cells with inducing points at training inputs; interpolation over the whole grid range incl. the first / last cells (nearest-node rule) and the boundary nodes'
+    '; pass 7: Nystrom cells beyond the Cholesky size and copies looked at after the original moved; KISS-GP under fast_pred_samples (covariance handed out as a root) on the Cholesky and CG sides'
 )
 REQUIRED = ["multitask_kron", "index_kernel", "lcm_kernel", "grid_kernel_dense", "kiss_kernel_WKW", "nystrom", "rff_features", "strategy_equals_dense_conditional", "sgpr_titsias_bound", "sgpr_predictive_equations",
             "wiski_fantasy", "interp_sum_to_one", "interp_exact_at_nodes", "interp_reproduces_quadratics", "interp_matrix_equals_tensor_product", "kiss_converges", "path:InterpolatedPredictionStrategy.exact_prediction", "path:SGPRPredictionStrategy.exact_prediction"]
@@ -59,6 +60,9 @@ def cases(tier, seed):
                 # the same strategies under per-point (fixed) observation noise, with and without a learned additional noise
                 for lk in ("fixed", "fixed_learned"):
                     yield {"kind": "strategy", "model": model, "max_cholesky_size": chol, "fast_pred_var": fpv, "sgpr_diagonal_correction": corr, "use_toeplitz": tz, "lik": lk, "seed": rnd.randrange(10**6)}
+        # fast_pred_samples (the statement names it): KISS-GP returns the posterior covariance as a root W* R, R R^T = K_UU - cache
+        for model, chol, fpv in itertools.product(["kiss1d", "kiss2d"], [800, 0], [False, True]):
+            yield {"kind": "strategy", "model": model, "max_cholesky_size": chol, "fast_pred_var": fpv, "fast_pred_samples": True, "sgpr_diagonal_correction": True, "use_toeplitz": True, "seed": rnd.randrange(10**6)}
         for model, fpv, bb in itertools.product(["kiss", "sgpr", "rff"], [False, True], [[2], [3, 2]]):
             yield {"kind": "strategy_batch", "model": model, "fast_pred_var": fpv, "batch": bb, "seed": rnd.randrange(10**6)}
         for m, lk in itertools.product((2, 4), ("gaussian", "fixed", "fixed_learned")):
@@ -433,6 +437,8 @@ def _strategy(case, ctx, g):
     n = X.shape[0]
     sd = {"max_cholesky_size": case["max_cholesky_size"], "fast_pred_var": case["fast_pred_var"], "sgpr_diagonal_correction": case["sgpr_diagonal_correction"], "use_toeplitz": case["use_toeplitz"]}
     iterative = case["max_cholesky_size"] == 0
+    if case.get("fast_pred_samples"):
+        sd["fast_pred_samples"] = True
     with util.settings_ctx(sd, tight=True, n=2 * n, predict_only=True), torch.no_grad():
         try:
             out = m(xs)
@@ -453,6 +459,9 @@ def _strategy(case, ctx, g):
     ref_m, ref_c, _, _ = util.dense_conditional(Kxx, Ksx, Kss, mu[:n], mu[n:], torch.diag(s2), y)
     tol = ("lanczos" if case["fast_pred_var"] else "iter") if iterative else ((1e-5, 1e-5) if case["fast_pred_var"] else (1e-7, 1e-7))
     cls = f"{case['model']}:{'cg' if iterative else 'chol'}{':love' if case['fast_pred_var'] else ''}" + ("" if case.get("lik", "gaussian") == "gaussian" else ":" + case["lik"])
+    if case.get("fast_pred_samples"):
+        cls += ":fast_samples"
+        tol = "lanczos" if iterative else (1e-5, 1e-5)
     ctx.close("strategy_equals_dense_conditional", mean, ref_m, tol, cls=cls + ":mean", model=case["model"], quantity="mean")
     ctx.close("strategy_equals_dense_conditional", cov, ref_c, tol, cls=cls + ":cov", model=case["model"], quantity="cov")
 
